@@ -961,6 +961,9 @@ func randCacheConfig(rng *rand.Rand, focus string) (kioshun.Config, int, int) {
 	if rng.Intn(3) == 0 {
 		conf.MaxCost = pick(rng, []int64{1, 7, 20, 50})
 		wmode = 1 + rng.Intn(3)
+		if rng.Intn(4) == 0 {
+			conf.MaxSize = 0 // cost-only cache: no entry limit, evictions driven by weight alone
+		}
 		conf.CostAdmission = kioshun.CostAdmission(rng.Intn(3))
 	} else if rng.Intn(8) == 0 {
 		wmode = 1
